@@ -469,7 +469,12 @@ def forces_scanner_reuse(case, ctx):
     if not scan.base.converged:
         ctx.event("scf_not_converged_scanner")
         raise Skip()
-    _, mfB = _scf(case, atomsB, dm0=mfA.make_rdm1())
+    # fresh objects at B, started from the density the scanner converged to: open-shell cases with these synthetic
+    # functionals have several SCF solutions (triplet NH: 8e-4 Eh apart, thorough tier, seed 3), and which one a run lands
+    # on depends on its path; the property is about the reused objects, not about the SCF, so both are evaluated at the
+    # same solution (a scanner working with stale grids or generators is not at a solution of the fresh objects, which
+    # then move away from it)
+    _, mfB = _scf(case, atomsB, dm0=scan.base.make_rdm1())
     if not mfB.converged:
         ctx.event("scf_not_converged")
         raise Skip()
